@@ -559,6 +559,14 @@ const MALFORMED: &[&str] = &[
     "statement ok retry 2 backoff 18446744073709551615s1000000000ns",
     "sleep 18446744073709551616s",
     "sleep 1s 2",
+    // both an inline pattern and a multi-line text (also when the pattern is the catch-all `.*`), a result
+    // block under `statement ok|count`: rejected at the header line
+    "statement error .*\nbad\n----\nmsg\n\n",
+    "query error .*\nbad\n----\nmsg\n\n",
+    "statement error x\nbad\n----\nmsg\n\n",
+    "query error (a|b)\nbad\n----\nmsg\n\n",
+    "statement ok\nsel\n----\n1\n",
+    "statement count 1\nsel\n----\n1\n",
 ];
 
 /// which of the MALFORMED lines need a following SQL line to be *reached* as header (all are
@@ -596,8 +604,10 @@ pub fn gen_c04_inject(r: &mut Rng) -> (bool, String, usize, String) {
     }
     text.push_str(bad);
     text.push('\n');
-    // the malformed header may be followed by anything
-    text.push_str(*r.pick(&["select 1\n\n", "", "\n", "----\nx\n\n"]));
+    // the malformed header may be followed by anything (a malformed block is complete as it is)
+    if !bad.contains('\n') {
+        text.push_str(*r.pick(&["select 1\n\n", "", "\n", "----\nx\n\n"]));
+    }
     for b in blocks.iter().skip(pos) {
         text.push_str(b);
     }
